@@ -1,2 +1,9 @@
-(* C17 proofs (work in progress: re-exports the parts). *)
-Require Export LV.Proofs.HashGenOk.
+(* C17 proofs: entry point re-exporting the parts.
+     HashGenOk      generated constants = standard tables
+     HashGeneric    buffered Merkle-Damgard absorption, checked array operations
+     HashCount      32+32-bit bit counters and byte-index masks
+     HashCompress   model compression functions = specification compression functions
+     HashTomProofs  buffering/padding of sha256.c / sha512.c (generic in the block size)
+     HashSha2       SHA-256 / SHA-512 theorems *)
+Require Export LV.Proofs.HashGenOk LV.Proofs.HashGeneric LV.Proofs.HashCount LV.Proofs.HashCompress
+               LV.Proofs.HashTomProofs LV.Proofs.HashSha2.
